@@ -169,7 +169,7 @@ impl Walk {
             return;
         }
         if r.contains("READAPI:") {
-            self.fail(&["C03", "C12", "C01", "C02", "C05"], i, q, r, "the read side of the API is inconsistent with itself (size hints, row columns, value by column name, has_column)".into());
+            self.fail(&["C03", "C12", "C01", "C02", "C05", "C06", "C07", "C04"], i, q, r, "the read side of the API is inconsistent with itself (size hints, row columns, value by column name, has_column / get_column / primary_key_indices against the listed columns)".into());
             return;
         }
         if r.contains("STREAMAPI:") {
@@ -543,6 +543,12 @@ impl Walk {
                             break;
                         }
                     }
+                }
+                self.nontrivial.insert(q.to_string());
+            }
+            "@file_edit" => {
+                if r != "ok" {
+                    self.fail(&["C01", "C18", "C10", "C11", "C03"], i, q, r, "a package kept in a file, edited through msi::open_rw and read through msi::open, does not hold what the second session left (creation time, author, rows, stream)".into());
                 }
                 self.nontrivial.insert(q.to_string());
             }
